@@ -46,6 +46,9 @@ def per_property():
             out.append('*Clauses of the statement not decided*:\n' + '\n'.join('- ' + a for a in spec['undecided_clauses']) + '\n')
         if spec.get('unregistered'):
             out.append('*Obligations generated but not registered (undecided, never reported as violations)*: ' + ', '.join('`%s`' % u for u in spec['unregistered']) + '\n')
+        bn = spec.get('benign', [])
+        if bn:
+            out.append('*Benign corpus* (%d behaviour-preserving edits that must stay silent): ' % len(bn) + ', '.join(b['name'] for b in bn) + '\n')
         st = spec.get('selftest', [])
         if st:
             out.append('*Must-fail corpus* (%d mutants, thorough tier and `bin/govc selftest %s`): ' % (len(st), pid)
